@@ -181,7 +181,8 @@ CHECKS = {
     category='proof',
     text='For every public function of simulation.py, analytic.py, auxiliary.py and each parameter: modifies(f) does not intersect what is reachable from the '
          'parameter (flow-sensitive may-alias analysis with numpy view table and callee summaries to a fixpoint); analytic.py has no draw site or global state, '
-         'so a repeated call returns identical results.',
+         'so a repeated call returns identical results. Supplementary bounded backup (never counted as proved): about 85 native calls with '
+         'before/after snapshots of every argument and a second call.',
     design_ref='DESIGN.md section 5 "C19", 3.2',
     note='Trusted: the alias/mutator tables; library functions not tabulated as mutating; in-place operators on bare names are mutations only for array-like parameters.',
     technique='frame (modifies-clause) analysis over the AST with callee summaries'),
